@@ -23,12 +23,13 @@ func main() {
 	g := &gen{env: env}
 	g.pinned()
 	g.pinnedHists()
+	g.pinnedReent()
 	g.pinnedWitnesses()
 	g.sweepNum()
 	g.sweepStore()
 	g.sweepArity()
 	for env.Count() < env.N {
-		switch env.Rng.Intn(28) {
+		switch env.Rng.Intn(34) {
 		case 0, 1, 2:
 			g.randNum()
 		case 3, 4, 5:
@@ -47,6 +48,10 @@ func main() {
 			g.retCase()
 		case 21, 22:
 			g.anyCase()
+		case 23, 24, 25:
+			g.reentCase()
+		case 26, 27, 28:
+			g.mapHistWith(true)
 		default:
 			g.callCase()
 		}
